@@ -430,4 +430,227 @@ theorem approx_below_optimum (A : List Nat) (order : List Nat) (rules : List Rul
   rw [(ve_value_eq_bruteMax A order rules hA horder hcov).1]
   exact bruteMax_ge A rules a ha
 
+/-! ## the dense-table graph of LocalSearch / MaxPlus / RILS and `evaluateGraph`
+
+`UpdateGraph<LocalSearch>` accumulates every rule into `table[toIndexPartial(A, rule.action)]`
+of the node with the rule's key set; `evaluateGraph` reads `table[toIndexPartial(keys, A, a)]`
+of every node.  Theorem: what it returns is exactly the total payoff of `a`. -/
+
+theorem getD_addAt : ∀ (t : List Rat) (i : Nat) (v : Rat) (j : Nat),
+    (addAt t i v).getD j 0 = t.getD j 0 + (if j = i ∧ i < t.length then v else 0)
+  | [], i, v, j => by simp [addAt]
+  | q :: qs, 0, v, j => by
+    cases j with
+    | zero => simp [addAt]
+    | succ j => simp [addAt]
+  | q :: qs, i+1, v, j => by
+    cases j with
+    | zero => simp [addAt]
+    | succ j =>
+      have := getD_addAt qs i v j
+      simp only [addAt, List.getD_cons_succ, List.length_cons] at *
+      rw [this]
+      by_cases h : j = i ∧ i < qs.length
+      · have h' : j + 1 = i + 1 ∧ i + 1 < qs.length + 1 := ⟨by omega, by omega⟩
+        simp [h, h']
+      · have h' : ¬ (j + 1 = i + 1 ∧ i + 1 < qs.length + 1) := fun ⟨a, b⟩ => h ⟨by omega, by omega⟩
+        simp [h, h']
+
+theorem length_addAt : ∀ (t : List Rat) (i : Nat) (v : Rat), (addAt t i v).length = t.length
+  | [], _, _ => rfl
+  | _ :: _, 0, _ => rfl
+  | q :: qs, i+1, v => by simp [addAt, length_addAt qs i v]
+
+/-- a rule matches the joint action `a` iff the action restricted to the rule's keys is the rule's tuple -/
+theorem matchKV_iff_sel : ∀ (ks vs : List Nat) (a : List Nat), ks.length = vs.length →
+    (matchKV ks vs (asgOf a) = true ↔ sel ks a = vs)
+  | [], [], _, _ => by simp [matchKV, sel]
+  | [], _ :: _, _, h => by simp at h
+  | _ :: _, [], _, h => by simp at h
+  | k :: ks, v :: vs, a, h => by
+    have ih := matchKV_iff_sel ks vs a (by simpa using h)
+    simp only [matchKV, Bool.and_eq_true, beq_iff_eq, ih, sel, List.map_cons, List.cons.injEq, asgOf]
+
+theorem valid_length : ∀ (ds xs : List Nat), Valid ds xs → xs.length = ds.length
+  | [], [], _ => rfl
+  | [], _ :: _, h => by simp [Valid] at h
+  | _ :: _, [], h => by simp [Valid] at h
+  | d :: ds, x :: xs, h => by simp [valid_length ds xs h.2]
+
+theorem valid_sel (A a : List Nat) (ha : Valid A a) : ∀ (ks : List Nat), (∀ k ∈ ks, k < A.length) → Valid (sel ks A) (sel ks a)
+  | [], _ => by simp [sel, Valid]
+  | k :: ks, h => by
+    simp only [sel, List.map_cons, Valid]
+    exact ⟨((valid_iff_getD A a).mp ha).2 k (h k (List.mem_cons_self ..)),
+           valid_sel A a ha ks (fun k' hk' => h k' (List.mem_cons_of_mem _ hk'))⟩
+
+/-- well-formed rule: keys name existing agents and the tuple is valid for them -/
+def Rule.WF (A : List Nat) (r : Rule) : Prop := (∀ k ∈ r.keys, k < A.length) ∧ Valid (sel r.keys A) r.vals
+
+/-- the table cell a rule is accumulated into is the cell `evaluateFactor` reads iff the rule matches -/
+theorem index_eq_iff_match (A a : List Nat) (r : Rule) (ha : Valid A a) (hr : r.WF A) :
+    toIndexPartial r.keys A a = toIndexPartialPF A r.keys r.vals ↔ matchKV r.keys r.vals (asgOf a) = true := by
+  have hv := valid_sel A a ha r.keys hr.1
+  have hlen : r.keys.length = r.vals.length := by
+    have := valid_length _ _ hr.2; simp [sel] at this; omega
+  rw [matchKV_iff_sel r.keys r.vals a hlen]
+  simp only [toIndexPartial, toIndexPartialPF, toIndexLoop_eq, Nat.zero_add, Nat.one_mul]
+  constructor
+  · intro h; exact toIndex_inj _ _ _ hv hr.2 h
+  · intro h; rw [h]
+
+theorem index_lt_space (A : List Nat) (r : Rule) (hr : r.WF A) :
+    toIndexPartialPF A r.keys r.vals < spacePartial r.keys A := by
+  simp only [toIndexPartialPF, spacePartial, toIndexLoop_eq, Nat.zero_add, Nat.one_mul]
+  exact toIndex_lt _ _ hr.2
+
+/-- graph invariant: every table has the size of its key space -/
+def GInv (A : List Nat) (g : List Node) : Prop := ∀ nd ∈ g, nd.table.length = spacePartial nd.keys A
+
+def HasNode (g : List Node) (ks : List Nat) : Prop := ∃ nd ∈ g, nd.keys = ks
+
+theorem lsAdd_effect (A a : List Nat) (r : Rule) (ha : Valid A a) (hr : r.WF A) :
+    ∀ (g : List Node), GInv A g → HasNode g r.keys →
+      evalGraph A a (lsAdd A r g) = evalGraph A a g + r.eval (asgOf a)
+  | [], _, h => by obtain ⟨_, h, _⟩ := h; simp at h
+  | nd :: g, hinv, hex => by
+    simp only [lsAdd]
+    by_cases hk : nd.keys = r.keys
+    · simp only [hk, beq_self_eq_true, if_true, evalGraph, evalNode, getD_addAt]
+      have hlen : nd.table.length = spacePartial r.keys A := by rw [← hk]; exact hinv nd (List.mem_cons_self ..)
+      have hlt := index_lt_space A r hr
+      have hm := index_eq_iff_match A a r ha hr
+      simp only [Rule.eval]
+      by_cases hmatch : matchKV r.keys r.vals (asgOf a) = true
+      · have := hm.mpr hmatch
+        simp only [hmatch, if_true, this, hlen, hlt, and_self]
+        ring
+      · have hne : ¬ (toIndexPartial r.keys A a = toIndexPartialPF A r.keys r.vals) := fun e => hmatch (hm.mp e)
+        simp only [hmatch, hne, false_and, if_false]
+        simp
+    · have hk' : (nd.keys == r.keys) = false := by simpa using hk
+      simp only [hk', Bool.false_eq_true, if_false, evalGraph]
+      have hex' : HasNode g r.keys := by
+        obtain ⟨nd', hmem, hkeys⟩ := hex
+        rcases List.mem_cons.mp hmem with h | h
+        · subst h; exact absurd hkeys hk
+        · exact ⟨nd', h, hkeys⟩
+      rw [lsAdd_effect A a r ha hr g (fun n hn => hinv n (List.mem_cons_of_mem _ hn)) hex']
+      ring
+
+/-- `lsAdd` changes neither the key sets nor the table sizes -/
+theorem lsAdd_sig (A : List Nat) (r : Rule) : ∀ (g : List Node),
+    (lsAdd A r g).map (fun nd => (nd.keys, nd.table.length)) = g.map (fun nd => (nd.keys, nd.table.length))
+  | [] => rfl
+  | nd :: g => by
+    simp only [lsAdd]
+    split
+    · simp [length_addAt]
+    · simp [lsAdd_sig A r g]
+
+theorem ginv_of_sig (A : List Nat) (g g' : List Node)
+    (h : g'.map (fun nd => (nd.keys, nd.table.length)) = g.map (fun nd => (nd.keys, nd.table.length)))
+    (hinv : GInv A g) : GInv A g' := by
+  intro nd hnd
+  have : (nd.keys, nd.table.length) ∈ g.map (fun nd => (nd.keys, nd.table.length)) := by
+    rw [← h]; exact List.mem_map.mpr ⟨nd, hnd, rfl⟩
+  obtain ⟨nd', hnd', he⟩ := List.mem_map.mp this
+  have := hinv nd' hnd'
+  simp only [Prod.mk.injEq] at he
+  rw [← he.1, ← he.2]; exact this
+
+theorem hasNode_of_sig (g g' : List Node) (ks : List Nat)
+    (h : g'.map (fun nd => (nd.keys, nd.table.length)) = g.map (fun nd => (nd.keys, nd.table.length)))
+    (hex : HasNode g ks) : HasNode g' ks := by
+  obtain ⟨nd, hnd, hk⟩ := hex
+  have : (nd.keys, nd.table.length) ∈ g'.map (fun nd => (nd.keys, nd.table.length)) := by
+    rw [h]; exact List.mem_map.mpr ⟨nd, hnd, rfl⟩
+  obtain ⟨nd', hnd', he⟩ := List.mem_map.mp this
+  simp only [Prod.mk.injEq] at he
+  exact ⟨nd', hnd', by rw [he.1, hk]⟩
+
+theorem lsUpdate_effect (A a : List Nat) (ha : Valid A a) : ∀ (rules : List Rule) (g : List Node),
+    (∀ r ∈ rules, r.WF A) → GInv A g → (∀ r ∈ rules, HasNode g r.keys) →
+      evalGraph A a (lsUpdate A rules g) = evalGraph A a g + payoffL rules a
+  | [], g, _, _, _ => by simp [lsUpdate, payoffL, payoff]
+  | r :: rs, g, hwf, hinv, hex => by
+    simp only [lsUpdate]
+    have hsig := lsAdd_sig A r g
+    rw [lsUpdate_effect A a ha rs (lsAdd A r g) (fun r' hr' => hwf r' (List.mem_cons_of_mem _ hr'))
+          (ginv_of_sig A g _ hsig hinv)
+          (fun r' hr' => hasNode_of_sig g _ _ hsig (hex r' (List.mem_cons_of_mem _ hr')))]
+    rw [lsAdd_effect A a r ha (hwf r (List.mem_cons_self ..)) g hinv (hex r (List.mem_cons_self ..))]
+    simp only [payoffL, payoff]; ring
+
+/-! ### `MakeGraph`: a zero table of the right size for every key set in the rules -/
+
+theorem getD_replicate_zero (n j : Nat) : (List.replicate n (0 : Rat)).getD j 0 = 0 := by
+  simp only [List.getD_eq_getElem?_getD, List.getElem?_replicate]
+  split <;> rfl
+
+def ZeroG (A a : List Nat) (g : List Node) : Prop := evalGraph A a g = 0
+
+theorem evalGraph_append (A a : List Nat) : ∀ (g h : List Node), evalGraph A a (g ++ h) = evalGraph A a g + evalGraph A a h
+  | [], h => by simp [evalGraph]
+  | nd :: g, h => by simp only [List.cons_append, evalGraph, evalGraph_append A a g h]; ring
+
+theorem lsMake_spec (A a : List Nat) : ∀ (rules : List Rule) (g : List Node),
+    GInv A g → evalGraph A a g = 0 →
+      GInv A (lsMake A rules g) ∧ evalGraph A a (lsMake A rules g) = 0 ∧
+      (∀ ks, HasNode g ks → HasNode (lsMake A rules g) ks) ∧
+      (∀ r ∈ rules, HasNode (lsMake A rules g) r.keys)
+  | [], g, hinv, hz => ⟨hinv, hz, fun _ h => h, by simp⟩
+  | r :: rs, g, hinv, hz => by
+    simp only [lsMake]
+    split
+    · rename_i hany
+      obtain ⟨h1, h2, h3, h4⟩ := lsMake_spec A a rs g hinv hz
+      refine ⟨h1, h2, h3, ?_⟩
+      intro r' hr'
+      rcases List.mem_cons.mp hr' with h | h
+      · subst h
+        obtain ⟨nd, hnd, hk⟩ := List.any_eq_true.mp hany
+        exact h3 _ ⟨nd, hnd, by simpa using hk⟩
+      · exact h4 r' h
+    · have hinv' : GInv A (g ++ [⟨r.keys, List.replicate (spacePartial r.keys A) 0⟩]) := by
+        intro nd hnd
+        rcases List.mem_append.mp hnd with h | h
+        · exact hinv nd h
+        · simp at h; subst h; simp
+      have hz' : evalGraph A a (g ++ [⟨r.keys, List.replicate (spacePartial r.keys A) 0⟩]) = 0 := by
+        rw [evalGraph_append, hz]
+        simp only [evalGraph, evalNode, getD_replicate_zero]; ring
+      obtain ⟨h1, h2, h3, h4⟩ := lsMake_spec A a rs _ hinv' hz'
+      refine ⟨h1, h2, fun ks hks => h3 ks ?_, ?_⟩
+      · obtain ⟨nd, hnd, hk⟩ := hks
+        exact ⟨nd, List.mem_append_left _ hnd, hk⟩
+      · intro r' hr'
+        rcases List.mem_cons.mp hr' with h | h
+        · subst h
+          exact h3 _ ⟨_, List.mem_append_right _ (List.mem_singleton.mpr rfl), rfl⟩
+        · exact h4 r' h
+
+/-- **`approx_reports_truth`** (second half): on the graph `MakeGraph`/`UpdateGraph` build from ANY
+    well-formed rule set (duplicates, nesting, absent entries, several key sets …),
+    `LocalSearch::evaluateGraph` of ANY in-range joint action is exactly its total payoff — the value
+    LocalSearch, MaxPlus and ReusingIterativeLocalSearch report for the action they return. -/
+theorem evalGraph_eq_payoff (A : List Nat) (rules : List Rule) (a : List Nat)
+    (hwf : ∀ r ∈ rules, r.WF A) (ha : Valid A a) :
+    evalGraph A a (lsGraph A rules) = payoffL rules a := by
+  obtain ⟨h1, h2, _, h4⟩ := lsMake_spec A a rules [] (by intro nd h; simp at h) rfl
+  unfold lsGraph
+  rw [lsUpdate_effect A a ha rules _ hwf h1 h4, h2]; ring
+
+/-- the structure may come from a different (earlier) rule set, as when the maximiser object and
+    its graph are reused: only the key sets have to be present -/
+theorem evalGraph_reuse (A : List Nat) (struct rules : List Rule) (a : List Nat)
+    (hwf : ∀ r ∈ rules, r.WF A) (ha : Valid A a)
+    (hsub : ∀ r ∈ rules, ∃ s ∈ struct, s.keys = r.keys) :
+    evalGraph A a (lsUpdate A rules (lsMake A struct [])) = payoffL rules a := by
+  obtain ⟨h1, h2, _, h4⟩ := lsMake_spec A a struct [] (by intro nd h; simp at h) rfl
+  rw [lsUpdate_effect A a ha rules _ hwf h1 ?_, h2]; · ring
+  intro r hr
+  obtain ⟨s, hs, hk⟩ := hsub r hr
+  rw [← hk]; exact h4 s hs
+
 end AITB.VE
